@@ -83,3 +83,56 @@ def check_calls(prog, res, fn, roots=('np',), rule='V5'):
                     'installed %s rejects this call: %s  [%s]' % (
                         ext, e, norm_text(c)[:70]))
   return checked, unres
+
+
+# ---------------------------------------------------------------------------
+# V5t - typed arguments of installed API functions whose signature accepts
+# anything but whose contract is "a dtype (or type), not a value".
+DTYPE_ARGS = {'np.issubdtype': (0, 1), 'np.can_cast': (1,),
+              'np.finfo': (0,), 'np.iinfo': (0,)}
+
+
+def _is_dtype_expr(prog, fn, e):
+  if isinstance(e, ast.Attribute) and e.attr in ('dtype', 'type'):
+    return True
+  if isinstance(e, ast.Call):
+    f = prog.ext_name(fn.module, e.func) or dotted(e.func) or ''
+    if f in ('np.dtype', 'np.result_type', 'np.promote_types', 'type',
+             'np.min_scalar_type'):
+      return True
+    return False
+  ext = prog.ext_name(fn.module, e) or ''
+  if ext.startswith(('np.', 'tf.')) and ext.count('.') == 1:
+    return True          # np.number, np.float32, tf.float32 ...
+  d = dotted(e)
+  if d in ('int', 'float', 'bool', 'str', 'complex', 'object'):
+    return True
+  if isinstance(e, ast.Name) and 'dtype' in e.id.lower():
+    return True
+  if isinstance(e, ast.Constant) and isinstance(e.value, str):
+    return True          # dtype name such as 'float32'
+  return False
+
+
+def check_dtype_args(prog, res, fn, rule='V5t'):
+  n = 0
+  for c in ast.walk(fn.node):
+    if not isinstance(c, ast.Call):
+      continue
+    ext = prog.ext_name(fn.module, c.func)
+    if ext not in DTYPE_ARGS:
+      continue
+    for pos in DTYPE_ARGS[ext]:
+      if pos >= len(c.args):
+        continue
+      a = c.args[pos]
+      n += 1
+      key = '%s|%s#%d' % (fn.qualname, ext, pos)
+      res.check(_is_dtype_expr(prog, fn, a), rule, key, fn.loc(c),
+                '%s argument %d is a dtype / type expression' % (ext, pos),
+                '%s expects a dtype or type in position %d but gets the value '
+                'expression `%s`: numpy tries to interpret the value as a '
+                'dtype specification (a str element such as \'cat\' raises '
+                'TypeError, \'f8\' is taken for float64)' % (
+                    ext, pos, norm_text(a)[:40]))
+  return n
